@@ -263,3 +263,659 @@ Proof.
     + intros cnt wc w A. congruence.
     + rewrite (nowait_nocw3 _ W Hw'), (nowait_nocw3 _ Wt Hw). tauto.
 Qed.
+
+(* ------------------------------------------------------------------ *)
+(* glue: one lemma per kind of kernel position *)
+Definition IX (x : ist) : Prop :=
+  Inv1 (mem (base x)) (fun u => view_of (ph x u)) (kg x) (cg x).
+
+Lemma start_ok p k : phase_ok (phase_of_start (start p k)) /\ maint_cw3 (phase_of_start (start p k)) /\
+  v_wait (view_of (phase_of_start (start p k))) = None /\ v_wake (view_of (phase_of_start (start p k))) = None /\
+  v_h0 (view_of (phase_of_start (start p k))) = false /\ v_h1 (view_of (phase_of_start (start p k))) = false /\
+  v_trans (view_of (phase_of_start (start p k))) = false.
+Proof.
+  destruct p as [|o p']; [cbn; repeat split; auto; intros ? ? Q; discriminate Q|].
+  destruct o; cbn; repeat split; auto; intros ? ? Q; inversion Q; subst; discriminate.
+Qed.
+
+Lemma noslot m V g t : KInv m V g -> v_cw3 (V t) = false -> forall q, slot_mutex m t = Some q -> False.
+Proof. intros I H q Q. destruct (l_slot _ _ _ I t q Q) as (_ & A & _). congruence. Qed.
+
+Lemma nohand m V g t : KInv m V g -> v_wait (V t) = None -> forall q, isq q -> hand g q <> Some t.
+Proof.
+  intros I H q Hq Q. destruct (q_hand _ _ _ I q t Hq Q) as (_ & _ & (wp & A & _) & _). congruence.
+Qed.
+
+(* leaving the kernel towards the start of the next call of the program *)
+Lemma to_start m m' V g c t p k :
+  Inv1 m V g c -> mpriv t g m m' ->
+  (fstate m' t = fstate m t \/ forall q, isq q -> hand g q <> Some t) ->
+  fnode m' t = fnode m t -> pend m' t = pend m t -> blocked m' t = blocked m t ->
+  slot_mutex m' t = slot_mutex m t ->
+  v_wait (V t) = None ->
+  (v_wake (V t) = None \/ exists q cnt wc, v_wake (V t) = Some (q, cnt, wc, VDone)) ->
+  (v_h1 (V t) = true -> g_trans c = 0 /\ g_claimed c = g_rel c) ->
+  Inv1 m' (upd V t (view_of (phase_of_start (start p k)))) g c.
+Proof.
+  intros I P Hst Hfn Hpd Hbl Hsl Hw Hk Hc.
+  destruct (start_ok p k) as (A1 & A2 & A3 & A4 & A5 & A6 & A7).
+  destruct I as [I C].
+  apply (jump_inv m m' V g c t); auto.
+  - split; auto.
+  - apply view_wf; auto.
+  - intros [|[|q]] Q; cbn [vholds] in Q; rewrite ?A5, ?A6 in Q; discriminate Q.
+  - rewrite Hsl. eapply noslot; eauto. apply nowait_nocw3; auto. apply I.
+  - intros Q. congruence.
+Qed.
+
+Definition step1_goal (m : kmem) (V : nat -> view) (g : gk) (c : gc) (t : nat) (p : phase) (m' : kmem) (p' : phase) : Prop :=
+  Inv1 m' (upd V t (view_of p')) (gk_step m t p g) (gc_step m t p c).
+
+Lemma mpriv_fstate t g m v : mpriv t g m (set_fstate m t v).
+Proof. constructor; auto. intros u Hu. cbn. now rewrite upd_other. Qed.
+Lemma mpriv_cell t g m i v : mpriv t g m (set_cell m i v).
+Proof. constructor; auto. Qed.
+Lemma mpriv_wordc t g m v : mpriv t g m (set_word m COND v).
+Proof. constructor; auto. intros q Hq. cbn. rewrite upd_other; auto. intros ->. discriminate Hq. Qed.
+
+Lemma step1_start m V g c t c0 m' p' :
+  Inv1 m V g c -> V t = view_of (PRun c0 KStart) -> linv0 m c t (PRun c0 KStart) ->
+  pstep m t (PRun c0 KStart) = (m', p') ->
+  step1_goal m V g c t (PRun c0 KStart) m' p'.
+Proof.
+  intros I HV [[Hc Hk] B H1 H2 H3 H4 H5] E. unfold step1_goal.
+  destruct c0; try discriminate Hc. cbn in E. inversion E; subst.
+  assert (G1 : gk_step m t (PRun (CNext p k) KStart) g = g) by reflexivity.
+  assert (G2 : gc_step m t (PRun (CNext p k) KStart) c = c) by reflexivity.
+  rewrite G1, G2. cbn in HV.
+  apply (to_start m); auto.
+  - apply mpriv_fstate.
+  - right. eapply nohand; [apply I|]. now rewrite HV.
+  - now rewrite HV.
+  - left. now rewrite HV.
+  - rewrite HV. discriminate.
+Qed.
+
+Lemma maint_cw3_nowait p : v_wait (view_of p) = None -> maint_cw3 p.
+Proof. intros H q wp Q. unfold view_of in H. cbn in H. rewrite Q in H. discriminate. Qed.
+
+(* between two calls, keeping the mutexes held *)
+Lemma jump_hold m m' V g c t p' :
+  Inv1 m V g c -> mpriv t g m m' ->
+  fstate m' t = fstate m t -> fnode m' t = fnode m t -> pend m' t = pend m t -> blocked m' t = blocked m t ->
+  slot_mutex m' t = slot_mutex m t ->
+  phase_ok p' ->
+  v_wait (V t) = None -> v_wake (V t) = None -> v_trans (V t) = false ->
+  v_wait (view_of p') = None -> v_wake (view_of p') = None -> v_trans (view_of p') = false ->
+  v_h0 (view_of p') = v_h0 (V t) -> v_h1 (view_of p') = v_h1 (V t) ->
+  Inv1 m' (upd V t (view_of p')) g c.
+Proof.
+  intros I P Hst Hfn Hpd Hbl Hsl Hok Hw Hk Ht Hw' Hk' Ht' Eh0 Eh1.
+  pose proof I as [K C].
+  assert (HO : v_h1 (V t) = true -> g_trans c = 0 /\ g_claimed c - g_rel c = 0).
+  { intros H. destruct (cn_hold _ _ _ C t H) as [A B]. rewrite Ht in A. unfold vout in B. rewrite Hk in B. auto. }
+  apply (jump_inv m m' V g c t); auto.
+  - apply view_wf; auto. now apply maint_cw3_nowait.
+  - intros [|[|q]] Q; cbn [vholds] in Q; try discriminate Q.
+    + apply (tk_hold _ _ _ K t 0%nat). cbn. congruence.
+    + apply (tk_hold _ _ _ K t 1%nat). cbn. congruence.
+  - rewrite Hsl. eapply noslot; eauto. apply nowait_nocw3; auto. apply K.
+  - rewrite Ht', Eh1. exact HO.
+  - intros A B. destruct (HO B). split; auto. lia.
+Qed.
+
+Ltac plain_jump m HV :=
+  apply (jump_hold m); auto;
+  try apply mpriv_cell; try apply mpriv_refl; try apply mpriv_wordc;
+  try (cbn; repeat split; auto; fail); try (rewrite HV; reflexivity).
+
+Lemma step1_acc_plain m V g c t c0 a m' p' :
+  Inv1 m V g c -> V t = view_of (PRun c0 (KAcc a)) -> linv0 m c t (PRun c0 (KAcc a)) ->
+  pstep m t (PRun c0 (KAcc a)) = (m', p') -> plain_client c0 = true ->
+  step1_goal m V g c t (PRun c0 (KAcc a)) m' p'.
+Proof.
+  intros I HV [[Hc Hk] B H1 H2 H3 H4 H5] E P. unfold step1_goal.
+  assert (G1 : gk_step m t (PRun c0 (KAcc a)) g = g) by reflexivity.
+  assert (G2 : gc_step m t (PRun c0 (KAcc a)) c = c) by (destruct c0; try discriminate P; reflexivity).
+  rewrite G1, G2.
+  destruct c0; try discriminate P; destruct a as [i v|i|q d mo|q d mo|q v mo|q mo]; try discriminate Hc;
+    cbn in E; cbn in HV.
+  - (* CIn *) destruct o; try discriminate Hc; cbn in E; injection E as <- <-; plain_jump m HV.
+  - (* CFlag *) unfold creturn in E; cbn in E. destruct (cell m i =? 0); injection E as <- <-; plain_jump m HV.
+  - (* CW1 *) injection E as <- <-; plain_jump m HV.
+  - (* CUnl *) injection E as <- <-; plain_jump m HV.
+  - (* CRb *) injection E as <- <-; plain_jump m HV.
+  - (* CRd *) injection E as <- <-. apply (to_start m); auto; try (apply mpriv_refl); rewrite HV; cbn; auto. discriminate.
+Qed.
+
+Lemma hand_none_cond m V g t : KInv m V g -> v_h1 (V t) = true -> v_wake (V t) = None -> hand g COND = None.
+Proof.
+  intros I H1 Hk. destruct (hand g COND) as [e|] eqn:E; auto. exfalso.
+  destruct (q_hand _ _ _ I COND e (or_intror (or_intror eq_refl)) E) as (_ & _ & _ & (u & cnt & wc & w & A & B)).
+  destruct (w_wake _ (l_wf _ _ _ I u) _ _ _ _ A) as (_ & Hc & _). destruct (Hc eq_refl) as [Hu _].
+  destruct (Nat.eq_dec u t) as [->|Hne]; [congruence|].
+  rewrite (h1_unique _ _ _ _ _ I H1 Hne) in Hu. discriminate.
+Qed.
+
+(* CW2: the waiter registers, and starts wait_in_mpsc_queue_and_unlock *)
+Lemma step1_reg m V g c t p k m' p' :
+  Inv1 m V g c -> V t = view_of (PRun (CW2 p k) (KAcc (AWFAdd COND 1 3))) ->
+  pstep m t (PRun (CW2 p k) (KAcc (AWFAdd COND 1 3))) = (m', p') ->
+  step1_goal m V g c t (PRun (CW2 p k) (KAcc (AWFAdd COND 1 3))) m' p'.
+Proof.
+  intros [I C] HV E. unfold step1_goal. cbn in E. injection E as <- <-. cbn in HV.
+  assert (G1 : gk_step m t (PRun (CW2 p k) (KAcc (AWFAdd COND 1 3))) g = g) by reflexivity.
+  rewrite G1. cbn [gc_step].
+  set (m' := set_slot_mutex (set_word m COND (word m COND + 1)) t (Some UMUTEX)).
+  set (v' := view_of (PRun (CW3 p k) (KWait COND WPSaving))).
+  pose proof (l_acct _ _ _ I t) as At. rewrite HV in At. cbn in At. destruct At as (Ag & Ap & Ab).
+  assert (P : mpriv t g m m').
+  { constructor; auto.
+    - intros u Hu. cbn. now rewrite upd_other.
+    - intros q Hq. cbn. rewrite upd_other; auto. intros ->. discriminate Hq. }
+  assert (W' : vwf v') by (apply view_wf; [cbn; auto|intros q wp Q; inversion Q; subst; discriminate]).
+  split.
+  - apply (inv_private m m' V g t v' I P W').
+    + left; reflexivity.
+    + left; reflexivity.
+    + apply (l_own _ _ _ I t).
+    + intros [|[|q]] Q; cbn in Q; try discriminate Q. apply (tk_hold _ _ _ I t 0%nat). rewrite HV. reflexivity.
+    + intros q wp _ Q. discriminate Q.
+    + intros q cnt wc kp Q. discriminate Q.
+    + intros q a b Q. rewrite HV in Q. discriminate Q.
+    + intros q wp Q. rewrite HV in Q. discriminate Q.
+    + intros q cnt wc w Q. rewrite HV in Q. discriminate Q.
+    + intros q cnt wc w Q. discriminate Q.
+    + intros q wp Q. inversion Q; subst. exact Logic.I.
+    + cbn. auto.
+    + exact Logic.I.
+    + intros _. apply (l_node _ _ _ I t). rewrite HV. exact Logic.I.
+    + intros q Q. cbn in Q. rewrite upd_same in Q. inversion Q; subst. repeat split; auto. exists WPSaving. auto.
+    + intros q q' ip Q. discriminate Q.
+  - constructor; cbn [g_reg g_claimed g_rel g_trans gwl myclaim myrel].
+    + intros u. vcase u t; [cbn; discriminate|apply C].
+    + intros F. apply (cn_free _ _ _ C). intros u. specialize (F u). vcase u t; [rewrite HV; reflexivity|exact F].
+    + intros u cnt wc w. vcase u t; [cbn; discriminate|apply C].
+    + cbn [length]. pose proof (cn_len _ _ _ C). lia.
+    + constructor; [|apply C]. intros Q. apply (cn_wl _ _ _ C t) in Q. rewrite HV in Q. destruct Q as [Q _]. discriminate Q.
+    + intros u. cbn [In]. vcase u t.
+      * cbn. split; auto.
+      * rewrite <- (cn_wl _ _ _ C u). split; [intros [Q|Q]; [congruence|auto]|auto].
+Qed.
+
+(* kernel part of a view change between two non-waiting views *)
+Lemma k_nowait m m' V g t v' :
+  KInv m V g -> mpriv t g m m' -> vwf v' ->
+  (fstate m' t = fstate m t \/ forall q, isq q -> hand g q <> Some t) ->
+  fnode m' t = fnode m t -> pend m' t = pend m t -> blocked m' t = blocked m t ->
+  v_wait (V t) = None -> v_wait v' = None ->
+  (v_wake (V t) = None \/ exists q cnt wc, v_wake (V t) = Some (q, cnt, wc, VDone)) ->
+  (forall q, vholds q v' = true -> tok g q = THeld t) ->
+  (forall q cnt wc kp, v_wake v' = Some (q, cnt, wc, VP kp) -> is_mutex q = true -> tok g q = TPass t /\ wc = 0) ->
+  (forall q cnt wc w, v_wake v' = Some (q, cnt, wc, w) -> pop_local m' g t q w) ->
+  (forall q, slot_mutex m' t = Some q -> False) ->
+  KInv m' (upd V t v') g.
+Proof.
+  intros I P W Hst Hfn Hpd Hbl Hw Hw' Hk Hh Hp Hl Hs.
+  apply (inv_private m m' V g t _ I P); auto.
+  - destruct Hst as [A|A]; auto.
+  - rewrite Hfn. apply (l_own _ _ _ I t).
+  - intros q wp A. congruence.
+  - intros q a b A. congruence.
+  - intros q wp A. congruence.
+  - intros q cnt wc w A B. destruct Hk as [Q|(q0 & cnt0 & wc0 & Q)]; rewrite Q in A; [discriminate|].
+    inversion A; subst. discriminate B.
+  - intros q wp A. congruence.
+  - rewrite Hw'. pose proof (l_acct _ _ _ I t) as A. rewrite Hw in A. cbn in *. rewrite Hpd, Hbl. exact A.
+  - rewrite Hw'. exact Logic.I.
+  - intros _. rewrite Hfn. apply (l_node _ _ _ I t). rewrite Hw. exact Logic.I.
+  - intros q Q. destruct (Hs q Q).
+  - intros q q' ip A. congruence.
+Qed.
+
+Lemma holds_from m V g t v' : KInv m V g ->
+  (v_h0 v' = true -> v_h0 (V t) = true) -> (v_h1 v' = true -> v_h1 (V t) = true) ->
+  forall q, vholds q v' = true -> tok g q = THeld t.
+Proof.
+  intros I A B [|[|q]] Q; cbn [vholds] in Q; try discriminate Q.
+  - apply (tk_hold _ _ _ I t 0%nat). cbn. auto.
+  - apply (tk_hold _ _ _ I t 1%nat). cbn. auto.
+Qed.
+
+(* CS2: the fetch_sub of a signal: claim one waiter or go transient *)
+Lemma step1_sig m V g c t um p k m' p' :
+  Inv1 m V g c -> V t = view_of (PRun (CS2 um p k) (KAcc (AWFSub COND 1 5))) ->
+  pstep m t (PRun (CS2 um p k) (KAcc (AWFSub COND 1 5))) = (m', p') ->
+  step1_goal m V g c t (PRun (CS2 um p k) (KAcc (AWFSub COND 1 5))) m' p'.
+Proof.
+  intros [I C] HV E. unfold step1_goal. cbn [pstep] in E. unfold creturn in E. cbn [cret] in E.
+  assert (G1 : gk_step m t (PRun (CS2 um p k) (KAcc (AWFSub COND 1 5))) g = g) by reflexivity.
+  rewrite G1. cbn [gc_step]. cbn in HV.
+  assert (Hh1 : v_h1 (V t) = true) by (rewrite HV; reflexivity).
+  destruct (cn_hold _ _ _ C t Hh1) as [T O]. rewrite HV in T, O. cbn in T, O.
+  assert (UQ : forall u, u <> t -> v_h1 (V u) = false) by (intros; eapply h1_unique; eauto).
+  assert (HN : hand g COND = None) by (eapply hand_none_cond; eauto; rewrite HV; reflexivity).
+  assert (P : mpriv t g m (set_word m COND (word m COND - 1))) by apply mpriv_wordc.
+  assert (NS : forall q, slot_mutex (set_word m COND (word m COND - 1)) t = Some q -> False).
+  { cbn. eapply noslot; eauto. rewrite HV. reflexivity. }
+  assert (EQ : (0 <=? word m COND - 1) = (1 <=? word m COND)).
+  { destruct (0 <=? word m COND - 1) eqn:A; destruct (1 <=? word m COND) eqn:B; auto;
+      [apply Z.leb_le in A; apply Z.leb_gt in B|apply Z.leb_gt in A; apply Z.leb_le in B]; lia. }
+  rewrite EQ in E. destruct (1 <=? word m COND) eqn:Ew; cbn in E; injection E as <- <-.
+  - (* claim *)
+    set (v' := view_of (PRun (CS3 um p k) (KWake COND 1 0 KPHead))).
+    assert (W' : vwf v') by (apply view_wf; [cbn; auto|apply maint_cw3_nowait; reflexivity]).
+    split.
+    + apply (k_nowait m _ V g t v' I P W'); auto.
+      * now rewrite HV.
+      * left. now rewrite HV.
+      * apply (holds_from _ _ _ _ _ I); rewrite HV; cbn; auto.
+      * intros q cnt wc kp Q M. inversion Q; subst. discriminate M.
+      * intros q cnt wc w Q. inversion Q; subst. exact HN.
+    + unfold set_myclaim. apply (cinv_gc V g c _ t v' C UQ); cbn [g_reg g_claimed g_rel g_trans gwl myclaim myrel].
+      * intros _. split; [exact T|]. cbn. lia.
+      * intros Q. discriminate Q.
+      * intros cnt wc w Q. inversion Q; subst. rewrite !upd_same. repeat split; lia.
+      * intros u Hu. rewrite !upd_other by auto. auto.
+      * apply C.
+      * apply C.
+      * tauto.
+      * rewrite (cn_wl _ _ _ C t), HV. cbn. tauto.
+  - (* nobody registered: transient *)
+    set (v' := view_of (PRun (CS3 um p k) (KAcc (AWFAdd COND 1 5)))).
+    assert (W' : vwf v') by (apply view_wf; [cbn; auto|apply maint_cw3_nowait; reflexivity]).
+    split.
+    + apply (k_nowait m _ V g t v' I P W'); auto.
+      * now rewrite HV.
+      * left. now rewrite HV.
+      * apply (holds_from _ _ _ _ _ I); rewrite HV; cbn; auto.
+      * intros q cnt wc kp Q. discriminate Q.
+      * intros q cnt wc w Q. discriminate Q.
+    + unfold set_myclaim. apply (cinv_gc V g c _ t v' C UQ); cbn [g_reg g_claimed g_rel g_trans gwl myclaim myrel].
+      * intros _. cbn. split; lia.
+      * intros Q. discriminate Q.
+      * intros cnt wc w Q. discriminate Q.
+      * intros u Hu. rewrite !upd_other by auto. auto.
+      * apply C.
+      * apply C.
+      * tauto.
+      * rewrite (cn_wl _ _ _ C t), HV. cbn. tauto.
+Qed.
+
+(* CB2: the exchange of a broadcast claims every registered waiter *)
+Lemma step1_bc m V g c t um p k m' p' :
+  Inv1 m V g c -> V t = view_of (PRun (CB2 um p k) (KAcc (AWXchg COND 0 2))) ->
+  word m COND = g_reg c - g_claimed c - g_trans c ->
+  pstep m t (PRun (CB2 um p k) (KAcc (AWXchg COND 0 2))) = (m', p') ->
+  step1_goal m V g c t (PRun (CB2 um p k) (KAcc (AWXchg COND 0 2))) m' p'.
+Proof.
+  intros [I C] HV Hcnt E. unfold step1_goal. cbn [pstep] in E. unfold creturn in E. cbn [cret] in E.
+  assert (G1 : gk_step m t (PRun (CB2 um p k) (KAcc (AWXchg COND 0 2))) g = g) by reflexivity.
+  rewrite G1. cbn [gc_step]. cbn in HV.
+  assert (Hh1 : v_h1 (V t) = true) by (rewrite HV; reflexivity).
+  destruct (cn_hold _ _ _ C t Hh1) as [T O]. rewrite HV in T, O. cbn in T, O.
+  assert (UQ : forall u, u <> t -> v_h1 (V u) = false) by (intros; eapply h1_unique; eauto).
+  assert (HN : hand g COND = None) by (eapply hand_none_cond; eauto; rewrite HV; reflexivity).
+  assert (P : mpriv t g m (set_word m COND 0)) by apply mpriv_wordc.
+  assert (NS : forall q, slot_mutex (set_word m COND 0) t = Some q -> False).
+  { cbn. eapply noslot; eauto. rewrite HV. reflexivity. }
+  assert (Hv : 0 <= word m COND) by (pose proof (cn_len _ _ _ C); lia).
+  destruct (word m COND =? 0) eqn:Ew; cbn in E; injection E as <- <-.
+  - apply Z.eqb_eq in Ew.
+    set (v' := view_of (PRun (CS4 um p k) (KUnlock IMUTEX UPAdd))).
+    assert (W' : vwf v') by (apply view_wf; [cbn; auto|apply maint_cw3_nowait; reflexivity]).
+    split.
+    + apply (k_nowait m _ V g t v' I P W'); auto.
+      * now rewrite HV.
+      * left. now rewrite HV.
+      * apply (holds_from _ _ _ _ _ I); rewrite HV; cbn; auto.
+      * intros q cnt wc kp Q. discriminate Q.
+      * intros q cnt wc w Q. discriminate Q.
+    + unfold set_myclaim. apply (cinv_gc V g c _ t v' C UQ); cbn [g_reg g_claimed g_rel g_trans gwl myclaim myrel].
+      * intros _. cbn. split; lia.
+      * intros Q. discriminate Q.
+      * intros cnt wc w Q. discriminate Q.
+      * intros u Hu. rewrite !upd_other by auto. auto.
+      * apply C.
+      * apply C.
+      * tauto.
+      * rewrite (cn_wl _ _ _ C t), HV. cbn. tauto.
+  - apply Z.eqb_neq in Ew.
+    set (v' := view_of (PRun (CS3 um p k) (KWake COND (word m COND) 0 KPHead))).
+    assert (W' : vwf v') by (apply view_wf; [cbn; auto|apply maint_cw3_nowait; reflexivity]).
+    split.
+    + apply (k_nowait m _ V g t v' I P W'); auto.
+      * now rewrite HV.
+      * left. now rewrite HV.
+      * apply (holds_from _ _ _ _ _ I); rewrite HV; cbn; auto.
+      * intros q cnt wc kp Q M. inversion Q; subst. discriminate M.
+      * intros q cnt wc w Q. inversion Q; subst. exact HN.
+    + unfold set_myclaim. apply (cinv_gc V g c _ t v' C UQ); cbn [g_reg g_claimed g_rel g_trans gwl myclaim myrel].
+      * intros _. split; [exact T|]. cbn. lia.
+      * intros Q. discriminate Q.
+      * intros cnt wc w Q. inversion Q; subst. rewrite !upd_same. repeat split; lia.
+      * intros u Hu. rewrite !upd_other by auto. auto.
+      * apply C.
+      * apply C.
+      * tauto.
+      * rewrite (cn_wl _ _ _ C t), HV. cbn. tauto.
+Qed.
+
+(* CS3: the fetch_add that undoes the fetch_sub of a signal that found nobody *)
+Lemma step1_untrans m V g c t um p k m' p' :
+  Inv1 m V g c -> V t = view_of (PRun (CS3 um p k) (KAcc (AWFAdd COND 1 5))) ->
+  pstep m t (PRun (CS3 um p k) (KAcc (AWFAdd COND 1 5))) = (m', p') ->
+  step1_goal m V g c t (PRun (CS3 um p k) (KAcc (AWFAdd COND 1 5))) m' p'.
+Proof.
+  intros [I C] HV E. unfold step1_goal. cbn in E. injection E as <- <-.
+  assert (G1 : gk_step m t (PRun (CS3 um p k) (KAcc (AWFAdd COND 1 5))) g = g) by reflexivity.
+  rewrite G1. cbn [gc_step]. cbn in HV.
+  assert (Hh1 : v_h1 (V t) = true) by (rewrite HV; reflexivity).
+  destruct (cn_hold _ _ _ C t Hh1) as [T O]. rewrite HV in T, O. cbn in T, O.
+  assert (UQ : forall u, u <> t -> v_h1 (V u) = false) by (intros; eapply h1_unique; eauto).
+  assert (P : mpriv t g m (set_word m COND (word m COND + 1))) by apply mpriv_wordc.
+  assert (NS : forall q, slot_mutex (set_word m COND (word m COND + 1)) t = Some q -> False).
+  { cbn. eapply noslot; eauto. rewrite HV. reflexivity. }
+  set (v' := view_of (PRun (CS4 um p k) (KUnlock IMUTEX UPAdd))).
+  assert (W' : vwf v') by (apply view_wf; [cbn; auto|apply maint_cw3_nowait; reflexivity]).
+  split.
+  - apply (k_nowait m _ V g t v' I P W'); auto.
+    + now rewrite HV.
+    + left. now rewrite HV.
+    + apply (holds_from _ _ _ _ _ I); rewrite HV; cbn; auto.
+    + intros q cnt wc kp Q. discriminate Q.
+    + intros q cnt wc w Q. discriminate Q.
+  - apply (cinv_gc V g c _ t v' C UQ); cbn [g_reg g_claimed g_rel g_trans gwl myclaim myrel].
+    + intros _. cbn. split; lia.
+    + intros Q. discriminate Q.
+    + intros cnt wc w Q. discriminate Q.
+    + intros u Hu. auto.
+    + apply C.
+    + apply C.
+    + tauto.
+    + rewrite (cn_wl _ _ _ C t), HV. cbn. tauto.
+Qed.
+
+(* ------------------------------------------------------------------ *)
+(* ghost records that agree on what the invariant reads *)
+Lemma KInv_gext m V g g' :
+  (forall q, tok g' q = tok g q) -> (forall q, gw g' q = gw g q) ->
+  gq g' = gq g -> hand g' = hand g -> nown g' = nown g -> got g' = got g ->
+  KInv m V g -> KInv m V g'.
+Proof.
+  intros E1 E2 E3 E4 E5 E6 I.
+  assert (CH : forall q, chain m g' q = chain m g q) by (intros; unfold chain; now rewrite E3).
+  constructor; intros; rewrite ?CH, ?E1, ?E2, ?E3, ?E4, ?E5, ?E6 in *.
+  - eapply (tk_hold _ _ _ I); eauto.
+  - eapply (tk_got _ _ _ I); eauto.
+  - eapply (tk_pass _ _ _ I); eauto.
+  - destruct (tk_count _ _ _ I q H) as (A & B & C). repeat split; auto.
+  - eapply (q_nodup _ _ _ I); eauto.
+  - eapply (q_nodes _ _ _ I); eauto.
+  - eapply (q_tail _ _ _ I); eauto.
+  - eapply (q_link _ _ _ I); eauto.
+  - eapply (q_last _ _ _ I); eauto.
+  - eapply (q_ent _ _ _ I); eauto.
+  - eapply (q_uniq _ _ _ I); eauto.
+  - eapply (q_hand _ _ _ I); eauto.
+  - pose proof (l_pop _ _ _ I u q cnt wc w H) as L. destruct w as [[]|]; cbn in *; rewrite ?E4, ?E5; exact L.
+  - pose proof (l_push _ _ _ I t q wp H) as L. destruct wp; cbn in *; rewrite ?CH, ?E3, ?E5; exact L.
+  - pose proof (l_acct _ _ _ I t) as L. unfold acct_local in *. rewrite E6. exact L.
+  - eapply (l_stat _ _ _ I); eauto.
+  - eapply (l_own _ _ _ I); eauto.
+  - apply (l_node _ _ _ I t). unfold has_node in *. rewrite E6 in H. exact H.
+  - eapply (l_slot _ _ _ I); eauto.
+  - eapply (l_maint _ _ _ I); eauto.
+  - eapply (l_wf _ _ _ I); eauto.
+Qed.
+
+Lemma CInv_gext V g g' c : got g' = got g -> CInv V g c -> CInv V g' c.
+Proof.
+  intros E I. constructor; try apply I. intros t. rewrite E. apply I.
+Qed.
+
+(* ------------------------------------------------------------------ *)
+(* the fetch_sub of fiber_mutex_lock and the fetch_add of unlock_internal *)
+Lemma lsub_succ_inv m V g c t q :
+  Inv1 m V g c -> is_mutex q = true -> word m q - 1 = 0 ->
+  Inv1 (set_word m q (word m q - 1)) V (set_tok g q (THeld t)) c.
+Proof.
+  intros [I C] Hq Hw.
+  destruct (tk_count _ _ _ I q Hq) as (C1 & C2 & C3).
+  assert (Hhv : hv (tok g q) = 0 /\ gw g q = 0) by (destruct (tok g q); cbn in *; lia).
+  destruct Hhv as [Hhv Hgw].
+  assert (NT : forall u, tok g q <> THeld u) by (intros u Q; rewrite Q in Hhv; discriminate).
+  assert (NP : forall u, tok g q <> TPass u) by (intros u Q; specialize (C3 u Q); lia).
+  split.
+  - apply (KInv_gext _ _ (set_gw (set_tok g q (THeld t)) q (gw g q))); auto.
+    { intros q0. cbn. unfold upd. destruct (q0 =? q)%nat eqn:Eq; auto. apply Nat.eqb_eq in Eq. now subst. }
+    apply k_tok; auto.
+    + cbn. repeat split; try lia. intros u Q. discriminate Q.
+    + intros u H. exfalso. eapply NT. eapply (tk_hold _ _ _ I); eauto.
+    + intros u wp A B D. exfalso. eapply NT. eapply (tk_got _ _ _ I); eauto.
+    + intros u cnt wc kp A. exfalso. eapply NP. eapply (tk_pass _ _ _ I); eauto.
+  - eapply CInv_gext; [|exact C]. reflexivity.
+Qed.
+
+Lemma lsub_fail_inv m V g c q :
+  Inv1 m V g c -> is_mutex q = true ->
+  Inv1 (set_word m q (word m q - 1)) V (set_gw g q (gw g q + 1)) c.
+Proof.
+  intros [I C] Hq.
+  destruct (tk_count _ _ _ I q Hq) as (C1 & C2 & C3).
+  split.
+  - apply (KInv_gext _ _ (set_gw (set_tok g q (tok g q)) q (gw g q + 1))); auto.
+    { intros q0. cbn. unfold upd. destruct (q0 =? q)%nat eqn:Eq; auto. apply Nat.eqb_eq in Eq. now subst. }
+    apply k_tok; auto.
+    + repeat split; try lia; intros u Q; specialize (C3 u Q); lia.
+    + intros u H. eapply (tk_hold _ _ _ I); eauto.
+    + intros u wp A B D. eapply (tk_got _ _ _ I); eauto.
+    + intros u cnt wc kp A. eapply (tk_pass _ _ _ I); eauto.
+  - eapply CInv_gext; [|exact C]. reflexivity.
+Qed.
+
+Lemma uadd_inv m V g c t q :
+  Inv1 m V g c -> is_mutex q = true -> tok g q = THeld t ->
+  vholds q (V t) = false ->
+  (forall wp, v_wait (V t) = Some (q, wp) -> v_lockw (V t) = true -> got g t = false) ->
+  Inv1 (set_word m q (word m q + 1)) V
+       (set_tok g q (if word m q + 1 =? 1 then TFree else TPass t)) c.
+Proof.
+  intros [I C] Hq Ht Hh Hl.
+  destruct (tk_count _ _ _ I q Hq) as (C1 & C2 & C3). rewrite Ht in C1. cbn in C1.
+  set (k' := if word m q + 1 =? 1 then TFree else TPass t).
+  split.
+  - apply (KInv_gext _ _ (set_gw (set_tok g q k') q (gw g q))); auto.
+    { intros q0. cbn. unfold upd. destruct (q0 =? q)%nat eqn:Eq; auto. apply Nat.eqb_eq in Eq. now subst. }
+    apply k_tok; auto.
+    + unfold k'. destruct (word m q + 1 =? 1) eqn:E; cbn.
+      * apply Z.eqb_eq in E. repeat split; try lia. intros u Q. discriminate Q.
+      * apply Z.eqb_neq in E. repeat split; try lia.
+    + intros u H. exfalso. pose proof (tk_hold _ _ _ I u q H) as Q. rewrite Ht in Q. inversion Q; subst. congruence.
+    + intros u wp A B D. exfalso. pose proof (tk_got _ _ _ I u q wp A B D) as Q. rewrite Ht in Q. inversion Q; subst.
+      rewrite (Hl wp A B) in D. discriminate.
+    + intros u cnt wc kp A. exfalso. destruct (tk_pass _ _ _ I u _ _ _ _ A Hq) as [Q _]. congruence.
+  - eapply CInv_gext; [|exact C]. reflexivity.
+Qed.
+
+(* ------------------------------------------------------------------ *)
+(* a waiting fiber moves to another position of its wait *)
+Lemma k_waitpos m m' V g t q wp wp' :
+  KInv m V g -> mpriv t g m m' ->
+  v_wait (V t) = Some (q, wp) -> v_wake (V t) = None -> v_uadd (V t) = None -> norm_wp wp' = wp' ->
+  (fstate m' t = fstate m t \/ fstate m' t = ST_WAITING \/ forall q, isq q -> hand g q <> Some t) ->
+  (fnode m' t = fnode m t \/ forall q, isq q -> hand g q <> Some t) ->
+  (fnode m' t <> O -> nown g (fnode m' t) = OThread t) ->
+  (forall a b, wp <> WPLink a b) ->
+  (afterx wp = true -> afterx wp' = true) ->
+  push_local m' g t q wp' ->
+  acct_local m' g t (Some (q, wp')) -> stat_local m' t (Some (q, wp')) ->
+  (has_node g t (Some (q, wp')) -> fnode m' t <> O) ->
+  (forall q0, slot_mutex m' t = Some q0 -> slot_mutex m t = Some q0 /\ (premaint wp = true -> premaint wp' = true)) ->
+  (forall q' ip, wp' <> WPYield (YPMaint q' ip)) ->
+  KInv m' (upd V t (set_vwait (V t) (Some (q, wp')))) g.
+Proof.
+  intros I P Hw Hk Hu Hn Hst Hfn Hown Hnl Hax Hpush Hacct Hstat Hnode Hslot Hnm.
+  pose proof (l_wf _ _ _ I t) as Wt.
+  apply (inv_private m m' V g t _ I P); auto.
+  - eapply vwf_set_wait; eauto.
+  - intros q0. exact (tk_hold _ _ _ I t q0).
+  - cbn. intros q0 wp0 A B D. inversion A; subst. eapply (tk_got _ _ _ I t); eauto.
+  - cbn. intros q0 cnt wc kp A. congruence.
+  - intros q0 a b A. rewrite Hw in A. inversion A; subst. destruct (Hnl a b eq_refl).
+  - intros q0 wp0 A B D. rewrite Hw in A. inversion A; subst. cbn. eauto.
+  - intros q0 cnt wc w A. congruence.
+  - cbn. intros q0 cnt wc w A. congruence.
+  - cbn. intros q0 wp0 A. inversion A; subst. exact Hpush.
+  - cbn. intros q0 Q. destruct (Hslot q0 Q) as [Q' Hp].
+    destruct (l_slot _ _ _ I t q0 Q') as (A & B & wp0 & D & F). rewrite Hw in D. inversion D; subst.
+    repeat split; auto. exists wp'. split; auto.
+  - cbn. intros q0 q' ip A. inversion A; subst. destruct (Hnm q' ip eq_refl).
+Qed.
+
+Lemma cinv_waitpos V g c t q wp wp' :
+  CInv V g c -> v_wait (V t) = Some (q, wp) -> vwf (V t) ->
+  CInv (upd V t (set_vwait (V t) (Some (q, wp')))) g c.
+Proof.
+  intros C Hw W. destruct (w_wait _ W _ _ Hw) as (_ & _ & _ & _ & H1 & Tr).
+  apply cinv_view; auto; cbn.
+  - intros Q. congruence.
+  - intros _ Q. congruence.
+  - intros cnt wc w Q. apply (cn_wc _ _ _ C t); auto.
+  - tauto.
+Qed.
+
+Definition gk_wait (t q : nat) (wp : waitpos) (g : gk) : gk :=
+  match wp with
+  | WPXchg n => set_nown (set_gq g q (gq g q ++ [(t, n)])) n (OList q)
+  | _ => g
+  end.
+
+Definition simple_wp (wp : waitpos) : bool :=
+  match wp with
+  | WPYield YPMFlip | WPYield (YPMaint _ _) => false
+  | _ => true
+  end.
+
+Lemma nohand_notafter m V g t q wp : KInv m V g -> v_wait (V t) = Some (q, wp) ->
+  (afterx wp = false \/ got g t = true) -> forall q0, isq q0 -> hand g q0 <> Some t.
+Proof.
+  intros I Hw H q0 Hq0 Q. destruct (q_hand _ _ _ I q0 t Hq0 Q) as (G & _ & (wp0 & A & B) & _).
+  rewrite Hw in A. inversion A; subst. destruct H; congruence.
+Qed.
+
+Ltac kw I Hw Hk Hu P :=
+  apply (k_waitpos _ _ _ _ _ _ _ _ I P Hw Hk Hu); auto; try discriminate; try exact Logic.I;
+  try (apply (l_own _ _ _ I _)); try (cbn; tauto).
+
+Lemma wait_simple m V g c t q wp m1 wp' :
+  Inv1 m V g c -> v_wait (V t) = Some (q, wp) -> v_wake (V t) = None -> v_uadd (V t) = None ->
+  wait_step m t q wp = (m1, TCont wp') -> simple_wp wp = true ->
+  (wp = WPYield YPAsleep -> blocked m t = false) ->
+  (forall st, wp = WPYield (YPNext true st) -> waitingish st = false) ->
+  Inv1 m1 (upd V t (set_vwait (V t) (Some (q, wp')))) (gk_wait t q wp g) c.
+Proof.
+  intros [I C] Hw Hk Hu E Hs Hb Hnt.
+  pose proof (l_wf _ _ _ I t) as Wt.
+  pose proof (l_push _ _ _ I t q wp Hw) as Lp.
+  pose proof (l_acct _ _ _ I t) as La. rewrite Hw in La.
+  pose proof (l_stat _ _ _ I t) as Ls. rewrite Hw in Ls.
+  pose proof (l_node _ _ _ I t) as Ln. rewrite Hw in Ln.
+  assert (CV : forall wp0, CInv (upd V t (set_vwait (V t) (Some (q, wp0)))) g c) by (intros; eapply cinv_waitpos; eauto).
+  assert (SL : forall m0 wp0, slot_mutex m0 t = slot_mutex m t -> (premaint wp = true -> premaint wp0 = true) ->
+               forall q0, slot_mutex m0 t = Some q0 -> slot_mutex m t = Some q0 /\ (premaint wp = true -> premaint wp0 = true)).
+  { intros m0 wp0 A B q0 Q. rewrite A in Q. auto. }
+  destruct wp as [| |n|n|a b|yp]; cbn [wait_step] in E.
+  - (* WPSaving *) injection E as <- <-. cbn [gk_wait]. split; [|apply CV].
+    cbn in La, Ln. destruct La as (Ag & Ap & Ab).
+    assert (NH : forall q0, isq q0 -> hand g q0 <> Some t) by (eapply nohand_notafter; eauto).
+    assert (A1 : acct_local (set_fstate m t ST_SAVING) g t (Some (q, WPData))) by (cbn; auto).
+    assert (A2 : stat_local (set_fstate m t ST_SAVING) t (Some (q, WPData))) by (cbn; now rewrite upd_same).
+    assert (A3 : has_node g t (Some (q, WPData)) -> fnode (set_fstate m t ST_SAVING) t <> O) by (intros _; apply Ln; left; reflexivity).
+    pose proof (SL (set_fstate m t ST_SAVING) WPData eq_refl (fun _ => eq_refl)) as A4.
+    kw I Hw Hk Hu (mpriv_fstate t g m ST_SAVING).
+  - (* WPData *) injection E as <- <-. cbn [gk_wait]. split; [|apply CV].
+    cbn in La, Ln, Ls. destruct La as (Ag & Ap & Ab).
+    assert (Hn : fnode m t <> O) by (apply Ln; left; reflexivity).
+    pose proof (l_own _ _ _ I t Hn) as Ho.
+    set (m1 := set_fnode (set_ndata m (fnode m t) (fname t)) t 0%nat).
+    assert (P : mpriv t g m m1).
+    { constructor; auto.
+      - intros n A B. cbn. rewrite upd_other; auto. intros ->. contradiction.
+      - intros u Hu'. cbn. now rewrite upd_other. }
+    assert (NH : forall q0, isq q0 -> hand g q0 <> Some t) by (eapply nohand_notafter; eauto).
+    assert (A0 : fnode m1 t <> O -> nown g (fnode m1 t) = OThread t) by (cbn; rewrite upd_same; intros Q; congruence).
+    assert (A1 : acct_local m1 g t (Some (q, WPNext (fnode m t)))) by (cbn; auto).
+    assert (A2 : stat_local m1 t (Some (q, WPNext (fnode m t)))) by (cbn; auto).
+    assert (A3 : has_node g t (Some (q, WPNext (fnode m t))) -> fnode m1 t <> O) by (cbn; intros [Q|Q]; [discriminate Q|congruence]).
+    assert (A5 : push_local m1 g t q (WPNext (fnode m t))) by (cbn; rewrite !upd_same; auto).
+    pose proof (SL m1 (WPNext (fnode m t)) eq_refl (fun _ => eq_refl)) as A4.
+    kw I Hw Hk Hu P.
+  - (* WPNext *) injection E as <- <-. cbn [gk_wait]. split; [|apply CV].
+    cbn in La, Ln, Ls, Lp. destruct La as (Ag & Ap & Ab). destruct Lp as (P1 & P2 & P3 & P4).
+    set (m1 := set_nnext m n 0%nat).
+    assert (P : mpriv t g m m1).
+    { constructor; auto. intros n0 A B. cbn. rewrite upd_other; auto. intros ->. contradiction. }
+    assert (A1 : acct_local m1 g t (Some (q, WPXchg n))) by (cbn; auto).
+    assert (A2 : stat_local m1 t (Some (q, WPXchg n))) by (cbn; auto).
+    assert (A3 : has_node g t (Some (q, WPXchg n)) -> fnode m1 t <> O) by (cbn; intros [Q|Q]; [discriminate Q|congruence]).
+    assert (A5 : push_local m1 g t q (WPXchg n)) by (cbn; rewrite upd_same; auto).
+    pose proof (SL m1 (WPXchg n) eq_refl (fun _ => eq_refl)) as A4.
+    kw I Hw Hk Hu P.
+  - (* WPXchg *) injection E as <- <-. cbn [gk_wait]. split.
+    + exact (k_wxchg _ _ _ _ _ _ I Hw).
+    + eapply CInv_gext; [|apply CV]. reflexivity.
+  - (* WPLink *) injection E as <- <-. cbn [gk_wait]. split; [|apply CV].
+    exact (k_wlink _ _ _ _ _ _ _ I Hw).
+  - destruct yp as [b|b st| | | | |q' ip| |]; cbn [yield_step] in E; try discriminate Hs.
+    + (* YPRead *) injection E as <- <-. cbn [gk_wait]. split; [|apply CV].
+      assert (A1 : acct_local m g t (Some (q, WPYield (YPNext b (fstate m t))))) by (destruct b; exact La).
+      assert (A2 : stat_local m t (Some (q, WPYield (YPNext b (fstate m t))))) by (destruct b; cbn in *; auto).
+      assert (A3 : has_node g t (Some (q, WPYield (YPNext b (fstate m t)))) -> fnode m t <> O) by exact Ln.
+      assert (A4 := SL m (WPYield (YPNext b (fstate m t))) eq_refl).
+      assert (A5 : premaint (WPYield (YPRead b)) = true -> premaint (WPYield (YPNext b (fstate m t))) = true) by (destruct b; auto).
+      specialize (A4 A5).
+      kw I Hw Hk Hu (mpriv_refl t g m).
+    + (* YPNext *) destruct (waitingish st) eqn:Ews; [|discriminate E]. injection E as <- <-. cbn [gk_wait]. split; [|apply CV].
+      destruct b.
+      { rewrite (Hnt st eq_refl) in Ews. discriminate Ews. }
+      assert (A1 : acct_local m g t (Some (q, WPYield YPSwRead))) by exact La.
+      assert (A2 : stat_local m t (Some (q, WPYield YPSwRead))) by (cbn in *; tauto).
+      assert (A3 : has_node g t (Some (q, WPYield YPSwRead)) -> fnode m t <> O) by exact Ln.
+      assert (A4 := SL m (WPYield YPSwRead) eq_refl (fun _ => eq_refl)).
+      kw I Hw Hk Hu (mpriv_refl t g m).
+    + (* YPSwRead *) destruct (fstate m t =? ST_RUNNING); [discriminate E|]. injection E as <- <-. cbn [gk_wait]. split; [|apply CV].
+      assert (A1 : acct_local m g t (Some (q, WPYield YPSwDone))) by exact La.
+      assert (A2 : stat_local m t (Some (q, WPYield YPSwDone))) by exact Ls.
+      assert (A3 : has_node g t (Some (q, WPYield YPSwDone)) -> fnode m t <> O) by exact Ln.
+      assert (A4 := SL m (WPYield YPSwDone) eq_refl (fun _ => eq_refl)).
+      kw I Hw Hk Hu (mpriv_refl t g m).
+    + (* YPSwDone *) injection E as <- <-. cbn [gk_wait]. split; [|apply CV].
+      assert (A1 : acct_local m g t (Some (q, WPYield YPMRead))) by exact La.
+      assert (A2 : stat_local m t (Some (q, WPYield YPMRead))) by exact Ls.
+      assert (A3 : has_node g t (Some (q, WPYield YPMRead)) -> fnode m t <> O) by exact Ln.
+      assert (A4 := SL m (WPYield YPMRead) eq_refl (fun _ => eq_refl)).
+      kw I Hw Hk Hu (mpriv_refl t g m).
+    + (* YPMRead *) cbn in Ls. rewrite Ls in E. cbn in E. injection E as <- <-. cbn [gk_wait]. split; [|apply CV].
+      assert (A1 : acct_local m g t (Some (q, WPYield YPMFlip))) by exact La.
+      assert (A2 : stat_local m t (Some (q, WPYield YPMFlip))) by exact Ls.
+      assert (A3 : has_node g t (Some (q, WPYield YPMFlip)) -> fnode m t <> O) by exact Ln.
+      assert (A4 := SL m (WPYield YPMFlip) eq_refl (fun _ => eq_refl)).
+      kw I Hw Hk Hu (mpriv_refl t g m).
+    + (* YPAsleep *) injection E as <- <-. cbn [gk_wait]. split; [|apply CV].
+      cbn in La. destruct La as (Ap & Ab). rewrite (Hb eq_refl) in Ab.
+      assert (Ag : got g t = true) by (destruct (got g t); auto; discriminate Ab).
+      assert (A1 : acct_local m g t (Some (q, WPYield YPResume))) by (cbn; rewrite (Hb eq_refl); auto).
+      assert (A2 : stat_local m t (Some (q, WPYield YPResume))) by exact Logic.I.
+      assert (A3 : has_node g t (Some (q, WPYield YPResume)) -> fnode m t <> O) by exact Ln.
+      assert (A4 := SL m (WPYield YPResume) eq_refl ltac:(cbn; intros Q; discriminate Q)).
+      kw I Hw Hk Hu (mpriv_refl t g m).
+    + (* YPResume *) injection E as <- <-. cbn [gk_wait]. split; [|apply CV].
+      cbn in La. destruct La as (Ag & Ap & Ab).
+      assert (NH : forall q0, isq q0 -> hand g q0 <> Some t) by (eapply nohand_notafter; eauto).
+      assert (A1 : acct_local (set_fstate m t ST_RUNNING) g t (Some (q, WPYield (YPRead true)))) by (cbn; auto).
+      assert (A2 : stat_local (set_fstate m t ST_RUNNING) t (Some (q, WPYield (YPRead true)))) by exact Logic.I.
+      assert (A3 : has_node g t (Some (q, WPYield (YPRead true))) -> fnode (set_fstate m t ST_RUNNING) t <> O) by exact Ln.
+      assert (A4 := SL (set_fstate m t ST_RUNNING) (WPYield (YPRead true)) eq_refl ltac:(cbn; intros Q; discriminate Q)).
+      kw I Hw Hk Hu (mpriv_fstate t g m ST_RUNNING).
+Qed.
